@@ -331,6 +331,9 @@ def get_fock_space_basis(d, cutoff):
 
     basis = np.empty((size, d), dtype=np.int64)
 
+    if size == 0:
+        return basis
+
     basis[0] = np.zeros(d, dtype=np.int64)
 
     for i in range(1, size):
